@@ -221,12 +221,23 @@ impl Range {
 
         let boxed_url_components = URL::parse(&url);
         if boxed_url_components.is_err() {
-            let message = boxed_url_components.as_ref().err().unwrap().to_string();
-            // unfallable
-            println!("unexpected error, {}", message);
+            let error = Error {
+                status_code_reason_phrase: STATUS_CODE_REASON_PHRASE.n400_bad_request,
+                message: boxed_url_components.err().unwrap()
+            };
+            eprintln!("{}", &error.message);
+            return Err(error);
         }
 
         let components = boxed_url_components.unwrap();
+        if !URL::is_path_inside_root(&components.path) {
+            let error = Error {
+                status_code_reason_phrase: STATUS_CODE_REASON_PHRASE.n404_not_found,
+                message: "path is outside of the served directory".to_string()
+            };
+            eprintln!("{}", &error.message);
+            return Err(error);
+        }
 
         let file_path_part = components.path.replace(SYMBOL.slash, &FileExt::get_path_separator());
 
